@@ -40,7 +40,10 @@ def _mk_variants(variants, parent):
         return natural if k >= 3 else ("SNV", "MNV", "indel")[k]
 
     vis = [VariantInterval(s, e, a, label(s, e, a), parent_or_seq_chunk_parent=parent) for (s, e, a) in variants]
-    return vis, (VariantIntervalCollection(vis, parent_or_seq_chunk_parent=parent) if vis else None)
+    # the order in which the caller lists the variants of a haplotype is not part of its meaning: reversed / rotated lists
+    k = (sum(s for (s, _e, _a) in variants) + len(variants)) % 3
+    listed = vis if k == 0 else (vis[::-1] if k == 1 else vis[1:] + vis[:1])
+    return vis, (VariantIntervalCollection(listed, parent_or_seq_chunk_parent=parent) if vis else None)
 
 
 def _to_chrom(l):
